@@ -55,31 +55,51 @@ def instantiate_type(
     # make a deep copy so that there is no overwriting of original template params
     ctype = deepcopy(ctype)
 
-    # Check if the return type has template parameters as the typename's name
-    if ctype.typename.instantiations:
-        for idx, instantiation in enumerate(ctype.typename.instantiations):
-            if instantiation.name in template_typenames:
-                template_idx = template_typenames.index(instantiation.name)
-                ctype.typename.instantiations[idx].name =\
-                    instantiations[template_idx]
+    # Instantiate the template arguments of a templated type, at any depth,
+    # e.g. std::vector<std::pair<T, This::Value>>.
+    if isinstance(ctype, parser.TemplatedType):
+        template_params = []
+        for param in ctype.template_params:
+            new_param = instantiate_type(param, template_typenames,
+                                         instantiations, cpp_typename,
+                                         instantiated_class)
+            # `This` scoping a template argument, e.g. vector<This::Value>,
+            # is given the full namespace of the class.
+            if 'This' in param.typename.namespaces:
+                new_param.typename.namespaces = \
+                    cpp_typename.namespaces + [cpp_typename.name]
+            template_params.append(new_param)
+        ctype.template_params = template_params
+        ctype.typename.instantiations = [
+            param.typename for param in template_params
+        ]
 
+    # A qualified name whose last component is a template parameter,
+    # e.g. This::M, has that component instantiated as well.
+    if ctype.typename.namespaces and ctype.typename.name in template_typenames:
+        ctype.typename.name = instantiations[template_typenames.index(
+            ctype.typename.name)].to_cpp()
 
     str_arg_typename = str(ctype.typename)
 
     # Check if template is a scoped template e.g. T::Value where T is the template
-    scoped_template, scoped_idx = is_scoped_template(template_typenames,
-                                                     str_arg_typename)
+    scoped_template, scoped_idx = is_scoped_template(
+        template_typenames, ctype.typename.qualified_name())
 
     # Instantiate templates which have enumerated instantiations in the template.
     # E.g. `template<T={double}>`.
 
     # Instantiate scoped templates, e.g. T::Value.
-    if scoped_template:
+    if scoped_template and scoped_template in ctype.typename.namespaces:
         # Create a copy of the instantiation so we can modify it.
         instantiation = deepcopy(instantiations[scoped_idx])
-        # Replace the part of the template with the instantiation
-        instantiation.name = str_arg_typename.replace(scoped_template,
-                                                      instantiation.name)
+        # Replace the scope naming the template with the C++ name of the
+        # instantiation, e.g. T::Value -> Pose3::Value (in namespace gtsam).
+        scopes = ctype.typename.namespaces + [ctype.typename.name]
+        scopes[scopes.index(scoped_template)] = parser.Typename(
+            [instantiation.name], instantiation.instantiations).to_cpp()
+        instantiation.name = "::".join(scopes)
+        instantiation.instantiations = ctype.typename.instantiations
         return parser.Type(
             typename=instantiation,
             is_const=ctype.is_const,
